@@ -73,7 +73,12 @@ def r14_2(ctx: Ctx) -> None:
                     return True
         return False
     raw = [(cd, pol) for cd, pol in q.facts_at(wf, fl[0]) if not aborts(cd, pol)]
-    facts = [(norm(cd), pol) for cd, pol in raw]
+    def positive(cd: ast.AST, pol: bool):
+        # 'x is None' known false is 'x is not None' known true (early return on a missing header)
+        if not pol and isinstance(cd, ast.Compare) and len(cd.ops) == 1 and isinstance(cd.ops[0], (ast.Is, ast.Eq)) and isinstance(cd.comparators[0], ast.Constant) and cd.comparators[0].value is None:
+            return norm(cd.left) + " is not None", True
+        return norm(cd), pol
+    facts = [positive(cd, pol) for cd, pol in raw]
     ok = ok and all(("_initialized" in cd or "header is not None" in cd) and pol for cd, pol in facts)
     ctx.check(ok, "R14.2", wf, wh[0], "packed data is flushed before the header is written", "_write_flush can write the header before the last folder is flushed (or skips the flush)")
     h = shared.szf(ctx, "_write_header")
